@@ -3,12 +3,14 @@ import OntVerif.Util.Hex
 /-!
 Line driver for C07.
 
-`E <kind> <mainnet> <height> <create> <stNonce> <msgNonce> <balS> <balD> <balO> <nonceD> <value> <gasLimit> <gasPrice> <intrinsic> <collision> <evmErr> <usedGas> <trace> fwd=<n>` (the last field only tells the harness which bytecode to generate)
+`E <kind> <mainnet> <height> <create> <stNonce> <msgNonce> <balS> <balD> <balO> <nonceD> <value> <gasLimit> <gasPrice> <intrinsic> <collision> <evmErr> <gasLeft> <refundCounter> <trace> fwd=<n>`
 
 Accounts: 0 = fee receiver (governance; printed as a delta), 1 = sender, 2 = recipient / created contract, 3 = a third
-account. `usedGas` is the receipt's gas used: the model starts the interpreter outcome from it (`gasLeft = gas bought −
-usedGas`, refund counter 0; only their combination is observable). `trace` = `-` or `;`-separated effects below the
+account. `evmErr`, `gasLeft` (gas returned by the top-level `evm.Call`/`evm.Create`), `refundCounter` and `trace` are
+read by the harness from an instrumented run of the real code (recording balance handle + Tracer): the model computes
+the gas used, the refund, every balance and nonce from them. `trace` = `-` or `;`-separated effects below the
 top-level frame: `x:a:b:v` transfer, `n:a:k` set nonce, `s:a:b` selfdestruct, `o` other, `sn` snapshot, `rv:k`, `dc:k`.
+The last field only tells the harness which bytecode to generate.
 -/
 namespace OntVerif.Driver.C07
 open OntVerif.Util OntVerif.Model.EvmTx
@@ -38,22 +40,21 @@ def showRes : Obs → String
 
 def handle (line : String) : String :=
   match fields line with
-  | ["E", _kind, mainnet, height, create, stNonce, msgNonce, balS, balD, balO, nonceD, value, gasLimit, gasPrice, intrinsic, collision, evmErr, used, trace, _fwd] =>
+  | ["E", _kind, mainnet, height, create, stNonce, msgNonce, balS, balD, balO, nonceD, value, gasLimit, gasPrice, intrinsic, collision, evmErr, left, refund, trace, _fwd] =>
     match height.toNat?, stNonce.toNat?, msgNonce.toNat?, balS.toNat?, balD.toNat?, balO.toNat?, nonceD.toNat?, value.toNat?,
-          gasLimit.toNat?, gasPrice.toNat?, intrinsic.toNat?, used.toNat?, parseTrace trace with
+          gasLimit.toNat?, gasPrice.toNat?, intrinsic.toNat?, left.toNat?, refund.toNat?, parseTrace trace with
     | some height, some stNonce, some msgNonce, some balS, some balD, some balO, some nonceD, some value,
-      some gasLimit, some gasPrice, some intrinsic, some used, some tr =>
+      some gasLimit, some gasPrice, some intrinsic, some left, some refund, some tr =>
       let env : Env := ⟨mainnet == "1", height, 0⟩
       let s : St Unit := ⟨fun a => if a = 1 then balS else if a = 2 then balD else if a = 3 then balO else 0,
                           fun a => if a = 1 then stNonce else if a = 2 then nonceD else 0, ()⟩
       let msg : Msg := ⟨1, create == "1", 2, msgNonce, value, gasLimit, gasPrice, intrinsic, true⟩
-      let gas0 := (buyGas env balS msg).1
-      let out : EvmOutcome Unit := ⟨collision == "1", tr, evmErr == "1", gas0 - used, 0⟩
+      let out : EvmOutcome Unit := ⟨collision == "1", tr, evmErr == "1", left, refund⟩
       let f (v : Variant) := showRes (observe [0, 1, 2, 3] (transition v env s msg out (fun _ x => x)))
       let a := f .asShipped
       let b := f .sound
       if a == b then a else a ++ " ## " ++ b
-    | _, _, _, _, _, _, _, _, _, _, _, _, _ => "bad-op"
+    | _, _, _, _, _, _, _, _, _, _, _, _, _, _ => "bad-op"
   | _ => "bad-op"
 
 end OntVerif.Driver.C07
